@@ -631,7 +631,7 @@ pub fn write_cases(quick: bool) -> Vec<Case> {
     let more = libc::MSG_MORE as u32;
     let more_dr = (libc::MSG_MORE | libc::MSG_DONTROUTE) as u32;
     // Single buffer.
-    for len in [1usize, 2, 3, 5] {
+    for len in if quick { vec![1usize, 2, 3, 5] } else { vec![1usize, 2, 3, 5, 8] } {
         for at in [None, Some(0u64), Some(5), Some(1 << 40)] {
             for extract in [false, true] {
                 v.push(Case { at, extract, ..base(Api::WriteAll, vec![len]) });
@@ -646,10 +646,10 @@ pub fn write_cases(quick: bool) -> Vec<Case> {
         }
     }
     // Vectored.
-    let (max_n, alpha): (usize, &[usize]) = if quick { (3, &[0, 1, 2]) } else { (4, &[0, 1, 2, 3]) };
+    let (max_n, alpha): (usize, &[usize]) = if quick { (3, &[0, 1, 2]) } else { (5, &[0, 1, 2, 3]) };
     for n in 1..=max_n {
         for lens in shapes(n, alpha) {
-            if lens.iter().sum::<usize>() > if quick { 5 } else { 7 } {
+            if lens.iter().sum::<usize>() > if quick { 5 } else { 9 } {
                 continue;
             }
             for at in [None, Some(7u64)] {
@@ -684,7 +684,7 @@ pub fn read_cases(quick: bool) -> Vec<Case> {
     let mut v = Vec::new();
     let base = |api, lens: Vec<usize>, n| Case { api, lens, at: None, flags: 0, zc: false, extract: false, n, buf: BufKind::Vec };
     let waitall = libc::MSG_WAITALL as u32;
-    for cap in [1usize, 2, 4, 5] {
+    for cap in if quick { vec![1usize, 2, 4, 5] } else { vec![1usize, 2, 4, 5, 8] } {
         for n in 1..=cap {
             for buf in [BufKind::Vec, BufKind::Prefilled, BufKind::Limited, BufKind::PoolFresh] {
                 for at in [None, Some(9u64)] {
@@ -702,11 +702,11 @@ pub fn read_cases(quick: bool) -> Vec<Case> {
             }
         }
     }
-    let (max_n, alpha): (usize, &[usize]) = if quick { (3, &[0, 1, 2]) } else { (4, &[0, 1, 2, 3]) };
+    let (max_n, alpha): (usize, &[usize]) = if quick { (3, &[0, 1, 2]) } else { (5, &[0, 1, 2, 3]) };
     for nb in 1..=max_n {
         for lens in shapes(nb, alpha) {
             let total: usize = lens.iter().sum();
-            if total > if quick { 5 } else { 6 } {
+            if total > if quick { 5 } else { 8 } {
                 continue;
             }
             for n in 1..=total {
